@@ -34,7 +34,7 @@ class C16(core.Prop):
     entry = "client"
     correspondence = "BaseClient.onevent / rmonevent / trigger_event along a message stream vs Client.Model.cstep (deliveries per operation)"
     rule = ("message streams as in C15 x callback sets with every combination of filters (device / property / element / event type each absent, "
-            "matching or non-matching), plain, coroutine and raising callbacks, registered and removed by id or by criteria between messages; a "
+            "matching or non-matching), plain (function / bound method / functools.partial / callable object), coroutine and raising callbacks, registered and removed by id or by criteria between messages; a "
             "catch-all callback registered first records the event stream; non-trivial = at least one filtered callback received an event; "
             "distinct by content")
     assumptions = ["callbacks are registered and removed between messages, not from inside a callback"]
